@@ -369,7 +369,7 @@ class ResolverMixin:  # pylint: disable=too-few-public-methods
                     if inh_qual.overridable or inh_qual.overridable is None:
                         self._init_qualifier(new_quals[inh_qname],
                                              qualifier_store)
-                        new_quals[inh_qname].propagated = True
+                        new_quals[inh_qname].propagated = False
 
                     else:
                         raise CIMError(
